@@ -1602,12 +1602,14 @@ theorem osgb_case_insensitive (s : List ℕ) : OSGB.decodeInt (s.map upper) = OS
 
 /-- **`osgb_scale_spec`** — the floating part of `GridReference(x, y, prec)` for one coordinate, every finite
 `x = ±m·2^e` (`m < 2^53`, `−1074 ≤ e ≤ 0`), `|x| ≤ 10^7` m, every precision `p ≤ 11`; `n = ⌊x/10^5⌋` exactly.
-Either (class U) the quotient `x/10^5` underflows to `−0` — `n = −1`, `|x| ≤ 10^5·2^(−1075)` — and the code is tile 0,
-digits 0: the adjoining square; or the tile index is exact and the computed in-tile offset `t'` is
+Either `n = −1` and the code is tile 0, digits 0 — the square adjoining the position — in exactly two circumstances:
+(class U) the quotient `x/10^5` underflows to `−0`, `|x| ≤ 10^5·2^(−1075)`; or `−2^(−37) ≤ x` and the sum `x + 10^5`
+rounds to the tile size, which the carry of the repaired code (finding F74) turns into the start of the next tile
+(theorem `osgb_offset_wrap`; a sliver of at most `2^(−37)` m, class F75).  Otherwise the tile index is exact and the
+computed in-tile offset `t' < 10^5` is
 
-* the exact offset `x − 10^5·n`, or
-* only for `n = −1`, `−50 km < x < 0`: the correctly rounded sum `x + 10^5` (`IsRN`, error `≤ 2^(−37)` m) — class G18-2,
-  and `t' = 10^5` itself for `−2^(−37) ≤ x` — class G18-1, theorem `osgb_offset_wrap`;
+* the exact offset `x − 10^5·n` (every tile but `−1`, and tile `−1` for `x ≤ −50 km`), or
+* only for `n = −1`, `−50 km < x < 0`: the correctly rounded sum `x + 10^5` (`IsRN`, error `≤ 2^(−37)` m) — class F75;
 
 and the digit indices are: for `p ≤ 5` exactly `i1 = ⌊t'/10^(5−p)⌋` (no rounding effect at all: `divFloor_nosliver`),
 for `p > 5` `i1 = ⌊t'⌋` exactly, the fractional part `t' − ⌊t'⌋` exactly, and `i2` from **one** rounded multiplication
@@ -1618,32 +1620,40 @@ theorem osgb_scale_spec (s : Bool) (m : ℕ) (e : ℤ) (hm : m < 2 ^ 53) (he1 : 
     (hn1 : (n:ℚ) ≤ (F64.fin s m e).val / 100000) (hn2 : (F64.fin s m e).val / 100000 < (n:ℚ) + 1) :
     let x := F64.fin s m e
     let sc := OSGB.scaleCoord x p
-    (n = -1 ∧ -(x.val / 100000) ≤ (2:ℚ) ^ (-(1075:ℤ)) ∧ sc = ⟨0, 0, 0⟩) ∨
-    (sc.h = n ∧ ∃ t' : ℚ, OffsetRel x.val n t' ∧ 0 ≤ t' ∧ t' ≤ 100000 ∧
+    (n = -1 ∧ (-(x.val / 100000) ≤ (2:ℚ) ^ (-(1075:ℤ)) ∨
+        (-(2:ℚ) ^ (-(37:ℤ)) ≤ x.val ∧ IsRN 53 (-1074) (x.val + 100000) 100000)) ∧ sc = ⟨0, 0, 0⟩) ∨
+    (sc.h = n ∧ ∃ t' : ℚ, OffsetRel x.val n t' ∧ 0 ≤ t' ∧ t' < 100000 ∧
       ∃ pv : ℚ, DigitRel t' p sc.i1 sc.i2 pv) :=
   scaleCoord_spec s m e hm he1 he0 p hp hb n hn1 hn2
 
 /-- **the coded square is the square that contains the position** — down to 1 m (`p ≤ 5`), every tile except the part
-`−50 km < x < 0` of tile `−1`, and not the underflow sliver: tile index and digit index are the exact floors -/
+`−50 km < x < 0` of tile `−1` (which contains the rounded-offset and the two adjoining-square classes): tile index and
+digit index are the exact floors -/
 theorem osgb_contains_le5 (s : Bool) (m : ℕ) (e : ℤ) (hm : m < 2 ^ 53) (he1 : -1074 ≤ e) (he0 : e ≤ 0) (p : ℕ) (hp : p ≤ 5)
     (hb : |(F64.fin s m e).val| ≤ 10 ^ 7) (n : ℤ)
     (hn1 : (n:ℚ) ≤ (F64.fin s m e).val / 100000) (hn2 : (F64.fin s m e).val / 100000 < (n:ℚ) + 1)
     (htile : n ≠ -1 ∨ (F64.fin s m e).val ≤ -50000) :
     OSGB.scaleCoord (F64.fin s m e) p = ⟨n, ⌊((F64.fin s m e).val - 100000 * n) / 10 ^ (5 - p)⌋, 0⟩ := by
   rcases scaleCoord_spec s m e hm he1 he0 p (by omega) hb n hn1 hn2 with ⟨hn, hU, _⟩ | ⟨hh, t', hrel, _, _, pv, hd, _⟩
-  · -- the underflow class needs −50 km < x
+  · -- both adjoining-square classes need −50 km < x
     exfalso
     rcases htile with h | h
     · exact h hn
-    · have hC : (2:ℚ) ^ (-(1075:ℤ)) < 1/4 := by
-        have h2 : (2:ℚ) ^ (-(1075:ℤ)) < (2:ℚ) ^ (-(2:ℤ)) := Dy.two_zpow_lt_iff.mpr (by norm_num)
-        have e2 : (2:ℚ) ^ (-(2:ℤ)) = 1/4 := by rw [zpow_neg]; norm_num
-        rw [e2] at h2; exact h2
-      have : (F64.fin s m e).val / 100000 ≤ -(1/2) := by
-        rw [div_le_iff₀ (by norm_num)]; linarith
-      linarith
+    · rcases hU with hU | ⟨h37, _⟩
+      · have hC : (2:ℚ) ^ (-(1075:ℤ)) < 1/4 := by
+          have h2 : (2:ℚ) ^ (-(1075:ℤ)) < (2:ℚ) ^ (-(2:ℤ)) := Dy.two_zpow_lt_iff.mpr (by norm_num)
+          have e2 : (2:ℚ) ^ (-(2:ℤ)) = 1/4 := by rw [zpow_neg]; norm_num
+          rw [e2] at h2; exact h2
+        have : (F64.fin s m e).val / 100000 ≤ -(1/2) := by
+          rw [div_le_iff₀ (by norm_num)]; linarith
+        linarith
+      · have h37' : (2:ℚ) ^ (-(37:ℤ)) < 1 := by
+          have : (2:ℚ) ^ (-(37:ℤ)) < (2:ℚ) ^ (0:ℤ) := Dy.two_zpow_lt_iff.mpr (by norm_num)
+          simpa using this
+        generalize (2:ℚ) ^ (-(37:ℤ)) = A at h37 h37'
+        linarith
   · have ht : t' = (F64.fin s m e).val - 100000 * n := by
-      rcases hrel with h | ⟨h1, h2, _⟩
+      rcases hrel with ⟨h, _⟩ | ⟨h1, h2, _⟩
       · exact h
       · exfalso
         rcases htile with h | h
@@ -1657,15 +1667,17 @@ theorem osgb_contains_le5 (s : Bool) (m : ℕ) (e : ℤ) (hm : m < 2 ^ 53) (he1 
       simp only [] at hh a b
       rw [hh, a, b]
 
-/-- **class G18-1 as a theorem**: for `−2^(−37) ≤ x < 0` whose quotient by the tile does not underflow to `−0`, tile
-`−1` is selected and the computed offset is the tile size `10^5` itself: `i1 = 10^min(p,5)`, whose `min(p,5)` low digits —
-the ones the digit loop writes — are all 0, and `i2 = 0`.  The reference names the south-west square of the tile to the
-west/south (finding G18-1). -/
+/-- **what the repaired code does for `−2^(−37) ≤ x < 0`** (finding F74, fixed by f3f841a; every precision `≤ 11`): the
+result is tile `0`, all digit indices `0` — the square `[0, 10^(5−p))` m whose edge the position misses by at most
+`2^(−37)` m ≈ 7·10^(−12) m.  Two mechanisms lead there: the quotient `x/10^5` underflows to `−0` (tile 0 directly, negative
+offset clamped: sliver class F2/U), or tile `−1` is selected, `x + 10^5` rounds to the tile size and the new carry
+`if (xf >= tile_) { xf = 0; ++xh; }` moves the point to the start of the next tile (sliver class F75).  Before the repair the
+second mechanism produced tile `−1` with digits `0…0`, the square 100 km away; a regression no longer matches any
+known class. -/
 theorem osgb_offset_wrap (s : Bool) (m : ℕ) (e : ℤ) (hm : m < 2 ^ 53) (he1 : -1074 ≤ e) (he0 : e ≤ 0) (p : ℕ) (hp : p ≤ 11)
-    (h1 : -(2:ℚ) ^ (-(37:ℤ)) ≤ (F64.fin s m e).val) (h2 : (F64.fin s m e).val < 0)
-    (hnu : (2:ℚ) ^ (-(1075:ℤ)) < -((F64.fin s m e).val / 100000)) :
-    OSGB.scaleCoord (F64.fin s m e) p = ⟨-1, 10 ^ (min p 5), 0⟩ :=
-  scaleCoord_wrap s m e hm he1 he0 p hp h1 h2 hnu
+    (h1 : -(2:ℚ) ^ (-(37:ℤ)) ≤ (F64.fin s m e).val) (h2 : (F64.fin s m e).val < 0) :
+    OSGB.scaleCoord (F64.fin s m e) p = ⟨0, 0, 0⟩ :=
+  scaleCoord_wrap s m e hm he1 he0 p hp h1 h2
 
 /-- `CheckCoords`: accepted ⇔ each coordinate is NaN or a finite number in the half-open documented range
 `[−1000 km, 1500 km) × [−500 km, 2000 km)` (limits from `Gen.Grid`); ±∞ is rejected -/
@@ -1830,8 +1842,9 @@ theorem osgb_wrap_shape (fe no tx ty : F64) :
 example : (5595568465256579 : ℕ) < 2 ^ 53 ∧ (-1074 : ℤ) ≤ -33 ∧ (-33 : ℤ) ≤ 0 := by decide
 example : OSGB.scaleCoord (F64.fin false 5595568465256579 (-33)) 3 = ⟨6, 514, 0⟩ := by decide +kernel
 example : OSGB.scaleCoord (F64.fin false 5595568465256579 (-33)) 8 = ⟨6, 51409, 903⟩ := by decide +kernel
-/-- class G18-1: `x = −2^(−40)` -/
-example : OSGB.scaleCoord (F64.fin true 1 (-40)) 5 = ⟨-1, 100000, 0⟩ := by decide +kernel
+/-- the carry of the repaired code (F74): `x = −2^(−40)` is coded into tile 0, digits 0; `x = −2^(−36)` is regular -/
+example : OSGB.scaleCoord (F64.fin true 1 (-40)) 5 = ⟨0, 0, 0⟩ := by decide +kernel
+example : OSGB.scaleCoord (F64.fin true 1 (-36)) 5 = ⟨-1, 99999, 0⟩ := by decide +kernel
 /-- class U: `x = −2^(−1074)` -/
 example : OSGB.scaleCoord (F64.fin true 1 (-1074)) 5 = ⟨0, 0, 0⟩ := by decide +kernel
 /-- class F2 in the digits beyond 1 m: `x = 0.3` (the double, `< 3/10`), `p = 6`: digit 3 -/
